@@ -1148,36 +1148,41 @@ func (P *Prog) checkPrecedence(r *Result) {
 	// i18n: language looked up in this call's context
 	if fn := closureStoredToGlobal(P.fn("zog/i18n.SetLanguagesErrsMap"), "IssueFormatter"); fn != nil {
 		r.sawFunc(fname(fn))
+		// the formatter and the helpers it calls (the choice of the map may live in a helper), each read
+		// under its call-site bindings
+		units := P.allUnits(fn)
 		var getCall *ssa.Call
-		eachInstr(fn, func(_ *ssa.BasicBlock, _ int, in ssa.Instruction) {
-			if c, ok := in.(*ssa.Call); ok {
-				if ci := callOf(c); ci.invoke != nil && ci.invoke.Name() == "Get" && cv(c.Call.Value) == ssa.Value(fn.Params[1]) {
-					getCall = c
-				}
-			}
-		})
-		keyed, fallback := false, false
-		eachInstr(fn, func(_ *ssa.BasicBlock, _ int, in ssa.Instruction) {
-			lk, ok := in.(*ssa.Lookup)
-			if !ok {
-				return
-			}
-			if getCall != nil {
-				for _, rt := range P.rootsOf(lk.Index) {
-					if rt.v == ssa.Value(getCall) {
-						keyed = true
+		for _, u := range units {
+			u.with(func() {
+				eachInstr(u.fn, func(_ *ssa.BasicBlock, _ int, in ssa.Instruction) {
+					if c, ok := in.(*ssa.Call); ok {
+						if ci := callOf(c); ci.invoke != nil && ci.invoke.Name() == "Get" && cv(c.Call.Value) == ssa.Value(fn.Params[1]) {
+							getCall = c
+						}
 					}
-				}
-			}
-			if _, isFV := cv(lk.Index).(*ssa.Parameter); isFV {
-				fallback = true // defaultLang parameter of the enclosing function
-			}
-			for _, rt := range P.rootsOf(lk.Index) {
-				if p, ok := rt.v.(*ssa.Parameter); ok && p.Name() == "defaultLang" {
-					fallback = true
-				}
-			}
-		})
+				})
+			})
+		}
+		keyed, fallback := false, false
+		for _, u := range units {
+			u.with(func() {
+				eachInstr(u.fn, func(_ *ssa.BasicBlock, _ int, in ssa.Instruction) {
+					lk, ok := in.(*ssa.Lookup)
+					if !ok {
+						return
+					}
+					for _, rt := range P.rootsOf(lk.Index) {
+						if getCall != nil && rt.v == ssa.Value(getCall) {
+							keyed = true
+						}
+						// the default language: a parameter of the function that installs the formatter
+						if p, ok := rt.v.(*ssa.Parameter); ok && p.Parent() == fn.Parent() && types.Identical(p.Type(), types.Typ[types.String]) {
+							fallback = true
+						}
+					}
+				})
+			})
+		}
 		if getCall != nil && keyed && fallback {
 			r.ok("C11/precedence", "i18n#language-from-context", P.pos(fn.Pos()), "language map indexed by ctx.Get(langKey) of this execution, default language otherwise")
 		} else {
